@@ -1213,7 +1213,7 @@ def run(tier, seed):
     rng = random.Random(core.sub_seed(seed, PROP, "order"))
     rng.shuffle(units)
     nsh = core.NPROC
-    budget = int(os.environ.get("C15_BUDGET", "0")) or (80 if quick else 1600)
+    budget = int(os.environ.get("C15_BUDGET", "0")) or int((80 if quick else 1600) * core.load_factor())
     specs = [{"units": units[i::nsh], "time_budget": budget} for i in range(nsh)]
     results = core.run_shards(shard, specs)
     stats, errors = core.Stats.merge(results)
